@@ -19,7 +19,7 @@ META = dict(
     rule="prefix tree: every series of length 1..N over {0,1,3,4,NaN} x method in {average,differential} x "
          "(suspect,fail) in ({None,0,.5,1,1.5,2,3})^2, each executed on the real spike_test (ndarray carrier; python "
          "lists with None/NaN for N<=3) and judged per point by the scalar reference; plus two long series (de Bruijn sequences holding every length-4 window, 628 and 2519 points); plus float32 / float16 carriers at magnitudes (2^24, 2^11) where arithmetic in the narrow type is inexact; plus every unknown-method "
-         "Scale: a 12345-point series for every threshold pair and method; the judged call after one or two earlier calls on longer records with gaps around its length (40, 300, 1027, 2049 points, +-1..2). spelling x thresholds x series of length<=3 (must raise ValueError). non-trivial = reference demands a "
+         "spelling x thresholds x series of length<=3 (must raise ValueError). Scale: a 12345-point series for every threshold pair and method; the judged call after one or two earlier calls on longer records with gaps around its length (40, 300, 1027, 2049 points, +-1..2). non-trivial = reference demands a "
          "SUSPECT or FAIL somewhere, or an exception",
     bounds={"quick": {"max_len": 5, "alphabet": list(SIGMA), "thresholds": list(THR)},
             "thorough": {"max_len": 7, "alphabet": list(SIGMA), "thresholds": list(THR)}},
